@@ -446,3 +446,9 @@ package tcell
 //@   initfuncs prepareXtermModifiers prepareBracketedPaste prepareUnderlines prepareExtendedOSC prepareCursorStyles buildAcsMap nColors
 //@   conffuncs mainLoop
 //@   entry mainLoop inputLoop
+
+//@ lockclass simscreen
+//@   guarded physw physh fini style front back clear cursorx cursory cursorvis mouse paste fillchar fillstyle fallback title clipboard
+//@   initonly evch quit charset encoder decoder
+//@   channel Screen Mutex
+//@   initfuncs Init NewSimulationScreen
